@@ -1571,10 +1571,12 @@ def _r20_5_sched(prog, rep, rid):
     worker = prog.const('task_description.py', 'RAPTOR_WORKER')
     # local definitions td = task['description'], x = td.get('k')
     defs = {}
+    n_defs = {}
     for s in walk(g.nodes[loop].ast):
         if isinstance(s, ast.Assign) and len(s.targets) == 1 and \
                 isinstance(s.targets[0], ast.Name):
             defs[s.targets[0].id] = s.value
+            n_defs[s.targets[0].id] = n_defs.get(s.targets[0].id, 0) + 1
 
     def descr_key(e, depth=0):
         """'raptor_id' for td.get('raptor_id') / task['description'][..]"""
@@ -1618,19 +1620,44 @@ def _r20_5_sched(prog, rep, rid):
                             return ('W', eq)      # W: task is a worker
         return None
 
+    def evalb(e, val, depth=0):
+        """truth of a test over the three atoms; None = not decided.  Sees
+        through `not`, and / or, bool(..) and locals bound once in the loop
+        body to such an expression (`for_raptor = bool(rid) and mode != W`)"""
+        c = classify(e)
+        if c is not None:
+            atom, pos = c
+            return val[atom] == pos
+        if isinstance(e, ast.UnaryOp) and isinstance(e.op, ast.Not):
+            v = evalb(e.operand, val, depth)
+            return None if v is None else not v
+        if isinstance(e, ast.BoolOp):
+            vs = [evalb(x, val, depth) for x in e.values]
+            if isinstance(e.op, ast.And):
+                if any(v is False for v in vs):
+                    return False
+                return True if all(v is True for v in vs) else None
+            if any(v is True for v in vs):
+                return True
+            return False if all(v is False for v in vs) else None
+        if isinstance(e, ast.Call) and call_name(e) == 'bool' and \
+                len(e.args) == 1 and not e.keywords:
+            return evalb(e.args[0], val, depth)
+        if isinstance(e, ast.Name) and e.id in defs and depth < 3 and \
+                n_defs.get(e.id) == 1:
+            return evalb(defs[e.id], val, depth + 1)
+        return None
+
     def transfer(node, edge, st):
         if edge.label == 'exc':
             return st
         R, Wk, S, eff = st
         a = node.ast
         if node.kind == 'test' and edge.label in ('T', 'F'):
-            c = classify(a)
-            if c is None:
+            v = evalb(a, {'R': R, 'W': Wk, 'S': S})
+            if v is None:
                 return st
-            atom, pos = c
-            want = (edge.label == 'T') == pos
-            cur = {'R': R, 'W': Wk, 'S': S}[atom]
-            return st if cur == want else None
+            return st if (edge.label == 'T') == v else None
         if node.kind == 'stmt' and a is not None:
             for c in calls_in(a):
                 if isinstance(c.func, ast.Attribute) and \
